@@ -100,6 +100,10 @@ func load(dir, goarch string) (*Prog, error) {
 			}
 		}
 	}
+	archIntBits = 64
+	if p.TypesSizes != nil {
+		archIntBits = int(p.TypesSizes.Sizeof(types.Typ[types.Int])) * 8
+	}
 	pr.normalizeAST()
 	pr.resolveRoles()
 	if pr.NFuncs < 150 {
